@@ -1,6 +1,6 @@
 #[cfg(test)]
 mod verif_demo_xlswb_5 {
-    use super::verif_demo_xlswb_1::{bof, boundsheet, open, rec};
+    use super::verif_demo_xlswb_2::{bof, boundsheet, open, rec};
     fn one_sheet(records: Vec<u8>) -> Vec<u8> {
         let mut wb = bof(0x0005);
         let pos = (wb.len() + 4 + 8 + 1 + 4) as u32;
